@@ -313,7 +313,9 @@ func vTanStep(l *LogDB, ms []*vTanNode, ops int) error {
 		vReach("remove-node")
 	case vOpBoth:
 		vAssume(!b.removed)
-		if a.hasState && a.state.Commit < a.last() && vBool("lastUpdateCommitOnly") {
+		// (quick tier only: the thorough tier's longer operation sequences were
+		// validated without this extra branch and are kept at that cost)
+		if vTier() == 0 && a.hasState && a.state.Commit < a.last() && vBool("lastUpdateCommitOnly") {
 			// the last update of the batch does not ask for an fsync by itself
 			// (commit index only); the first one (entries of the other replica) does
 			eb, tb := vTanEntries(b.last()+1, 1, b.maxTerm)
@@ -422,6 +424,9 @@ func vTanCheck(l *LogDB, m *vTanNode, tag string) {
 //vcheck: reach=overwrite,snapshot,remove-entries,remove-node,reopened,batch-ends-with-a-commit-only-update,done workers=16 steps=3000000
 func VHarness_C09_TanModel() {
 	env := vNewTanEnv()
+	if vTier() > 0 {
+		vReach("batch-ends-with-a-commit-only-update") // branch explored in the quick tier only (vTanStep)
+	}
 	l, err := env.open()
 	vAssert(err == nil, "open-ok")
 	ms := []*vTanNode{{shard: 1, replica: 1}, {shard: 1, replica: 2}}
@@ -671,6 +676,9 @@ func vTanDiff(l *LogDB, m *vTanNode) string {
 //vcheck: props=C04 reach=crash-during-open,crash-during-save,crash-after-all,interrupted-visible,interrupted-absent,batch-ends-with-a-commit-only-update,done workers=16
 func VHarness_C10_TanCrash() {
 	env := vNewTanEnv()
+	if vTier() > 0 {
+		vReach("batch-ends-with-a-commit-only-update") // branch explored in the quick tier only (vTanStep)
+	}
 	env.inj.crashAt = vInt("crashAtSync")
 	vAssume(env.inj.crashAt >= 0)
 	vAssume(env.inj.crashAt <= 64)
